@@ -42,13 +42,24 @@ class Oracle:
                 return re.search(q[1], q[2]) is not None
             except (re.error, RecursionError, OverflowError):
                 return None
+        # urllib raises ValueError for strings it cannot parse (e.g. "http://["); the model has no such
+        # notion (URIs are outside it), so it gets a harmless answer and the case is judged by the monitors
         if kind == "urljoin":
-            return urljoin(q[1], q[2])
+            try:
+                return urljoin(q[1], q[2])
+            except ValueError:
+                return q[2]
         if kind == "urldefrag":
-            u, f = urldefrag(q[1])
+            try:
+                u, f = urldefrag(q[1])
+            except ValueError:
+                u, f = q[1], ""
             return [u, f]
         if kind == "urinorm":
-            return urlsplit(q[1]).geturl()
+            try:
+                return urlsplit(q[1]).geturl()
+            except ValueError:
+                return q[1]
         if kind == "scheme":
             return urlsplit(q[1]).scheme
         if kind == "sort":
